@@ -63,7 +63,7 @@ def cases(tier, seed, shard, nshards):
                     yield {"lib": specs, "order": ORDERS[oi], "pc": mode}
     r = rng_for(seed, shard, "c16")
     for _ in range(tier_pick(tier, 24000, 1200000) // nshards):
-        n = r.randint(4, 40)
+        n = r.randint(4, 40) if r.random() < 0.99 else r.randint(257, 300)
         specs = []
         for j in range(n):
             s = r.choice(UNIVERSE)
